@@ -56,7 +56,7 @@ def rule_quant_truth(db: ProgramDB) -> List[Instance]:
         else:
             want = {const(c)}
         got = {f for _, f in quantifier_truth_profile(db, dict(C=c, ywf=y))}
-        ok = got == want or (c and not y and got <= {TRUE})
+        ok = got == want
         out.append(inst("QUANT-TRUTH", HOLDS if ok else VIOLATION, m, f"An._evaluate__[descriptor_false={c},yield_when_false={y}]",
                         f"rows are handed on with _is_false_ in {sorted(fmt(x) for x in got)}" +
                         ("" if ok else f"; a sub-query is as true as its conditions: required {sorted(fmt(x) for x in want)}")))
@@ -177,4 +177,104 @@ def rule_quant_contributes(db: ProgramDB) -> List[Instance]:
     out.append(inst("QUANT-CONTRIBUTES", HOLDS if ok3 else VIOLATION, rq, "ResultQuantifier.__post_init__[delegates to the selected variable]",
                     "`self._var_ = self._child_._var_`: attribute access and comparisons on a quantifier build expressions on its selected variable" if ok3 else
                     "the quantifier does not delegate to the selected variable of its descriptor"))
+    return out
+
+
+# ---------------------------------------------------------------------------------- HOOK-SELF
+def rule_hook_self(db: ProgramDB) -> List[Instance]:
+    """Attribute access, indexing and calls on an expression build a node ON THAT EXPRESSION (`Attribute(self, …)`): for a
+    quantifier the node has to stay above the sub-query, otherwise `an(entity(z, c)).attr` becomes `z.attr` and the operand is
+    no longer restricted to the sub-query's solutions."""
+    out = []
+    cbv = db.cls("CanBehaveLikeAVariable")
+    n = 0
+    for h in ("__getattr__", "__getitem__", "__call__"):
+        m = cbv.lookup(h)
+        if m is None:
+            out.append(inst("HOOK-SELF", UNDECIDED, cbv, f"CanBehaveLikeAVariable.{h}", "hook not defined"))
+            continue
+        rets = [r for r in own_nodes(m.node) if isinstance(r, ast.Return) and isinstance(r.value, ast.Call)]
+        builds = [r for r in rets if isinstance(resolve(db, m, r.value), ClassInfo)]
+        if not builds:
+            out.append(inst("HOOK-SELF", UNDECIDED, m, f"CanBehaveLikeAVariable.{h}", "no node construction returned"))
+            continue
+        for r in builds:
+            n += 1
+            c = r.value
+            t = resolve(db, m, c)
+            first = c.args[0] if c.args else next((k.value for k in c.keywords if k.arg == "_child_"), None)
+            ok = isinstance(first, ast.Name) and first.id == "self"
+            out.append(inst("HOOK-SELF", HOLDS if ok else VIOLATION, m, f"CanBehaveLikeAVariable.{h}[{unparse(c)[:40]}]",
+                            f"{t.name} is built on the expression itself" if ok else
+                            f"`{unparse(c)}` builds {t.name} on `{unparse(first) if first is not None else '?'}`, not on the expression the hook "
+                            f"was invoked on: for a quantifier the sub-query drops out of the expression tree", line=c.lineno))
+    if n == 0:
+        raise AnalysisError("no hook builds a node")
+    return out
+
+
+def resolve(db, fn, call):
+    from ..facts import resolve_call_target
+    return resolve_call_target(db, fn, call)
+
+
+# ---------------------------------------------------------------------------------- VARS-COMPLETE
+def rule_vars_complete(db: ProgramDB) -> List[Instance]:
+    """`_all_variable_instances_` of a node lists the variables of every sub-expression the node evaluates (it feeds the keys
+    of the result caches of the operators above and the duplicate-suppression keys): a descriptor that reports its selected
+    variables but not the variables of its conditions lets an enclosing operator cache a sub-query's rows per value of the
+    selected variable only."""
+    from ..abseval import AbsEval, State
+    from ..cfg import CFG
+    from ..evalsites import site_model
+    out = []
+    model = site_model(db)
+    se = db.cls("SymbolicExpression")
+    evaluated: Dict[str, Set[str]] = {}
+    for s in model.sites:
+        if s.fn.cls is None or not s.fn.cls.is_subclass_of(se):
+            continue
+        for o in s.origins:
+            if o.startswith("self."):
+                fname = o[5:].split("[")[0].split(".")[0]
+                if any(f.name == fname for k in s.fn.cls.mro for f in k.own_fields):
+                    evaluated.setdefault(s.fn.cls.name, set()).add(fname)
+    SKIP = {("Variable", "_domain_source_"): "the domain is a source of values, its variables do not identify rows of this query",
+            ("Variable", "_kwargs_expression_"): "built from the variable's own field constraints (same variables as _child_vars_)"}
+    n = 0
+    done = set()
+    for cname, fields in sorted(evaluated.items()):
+        cls = db.cls(cname)
+        # the implementation that serves the evaluating class and each of its concrete subclasses
+        for c in sorted([cls] + cls.all_subclasses(), key=lambda k: k.qualname):
+            m = c.lookup("_all_variable_instances_")
+            if m is None or any("abstractmethod" in d for d in m.decorators):
+                continue
+            cfg = CFG(m)
+
+            def attr_hook(e, st, ev):
+                if isinstance(e, ast.Attribute) and isinstance(e.value, ast.Name) and e.value.id == "self" and not e.attr.startswith("__"):
+                    return ("obj", "truthy")
+                return None
+            ev = AbsEval(db, m, cfg, attr_hook=attr_hook)
+            IN = ev.run(State({}), kinds=("n",))
+            reached_src = " ".join(unparse(cfg.nodes[i].ast) for i, sts in IN.items() if sts and cfg.nodes[i].ast is not None and cfg.nodes[i].kind in ("stmt", "return", "for"))
+            for fname in sorted(fields):
+                if (cname, fname) in SKIP or (m.qualname, fname) in done:
+                    continue
+                done.add((m.qualname, fname))
+                n += 1
+                aliases = {fname}
+                if fname == "left":
+                    aliases |= {"variable"}
+                if fname == "right":
+                    aliases |= {"condition"}
+                ok = any(f"self.{a}" in reached_src for a in aliases)
+                out.append(inst("VARS-COMPLETE", HOLDS if ok else VIOLATION, m, f"{m.short}[self.{fname}]",
+                                f"the variables of self.{fname} are reported whenever it is present" if ok else
+                                f"{c.name} evaluates self.{fname} but {m.short} does not report its variables (on the path where every sub-expression is "
+                                f"present): operators above key their result caches and duplicate suppression without them, so rows of the "
+                                f"sub-expression that differ only in those variables are served from one cache entry / suppressed as duplicates", line=m.lineno))
+    if n == 0:
+        raise AnalysisError("no _all_variable_instances_ implementation found for a class that evaluates sub-expressions")
     return out
